@@ -123,6 +123,12 @@ static void gen_case(vh_ctx *c, gcase *g, size_t pmax, size_t nymax, double kmax
     if (g->icpt && j == 0) { double c0 = (vh_coin(c, 0.5) ? 1 : -1) * vh_logunif(c, -0.5, 1.0); for (i = 0; i < n; i++) g->mx->data[i][0] = c0; }
   }
   ldm_free(U); ldm_free(Q); ldm_free(Z); free(s);
+  /* disparate units (second build session, side PRNG stream): an unscaled X block in units 1e4..1e7 next to responses of ordinary size makes the
+     inner-relation coefficients b_k ~ |y|/|t| as small as 1e-9: nothing in the property bounds the units of X */
+  {
+    vh_ctx cc = *c; cc.s[1] ^= 0xA0761D6478BD642FULL; cc.s[3] += 0x77ULL; (void)vh_u64(&cc); (void)vh_u64(&cc);
+    if ((xs == -1 || xs == 0) && vh_coin(&cc, 0.12)) { double f = pow(10.0, vh_range(&cc, 4.0, 7.0)); for (i = 0; i < n; i++) for (j = 0; j < p; j++) g->mx->data[i][j] *= f; vh_obs("cases_with_large_unit_x_block", 1); }
+  }
 
   g->X = ldm_of_matrix(g->mx);
   g->xm = calloc(p + 1, sizeof(ld)); g->xsc = calloc(p + 1, sizeof(ld));
